@@ -16,13 +16,18 @@ package checks
  */
 
 import (
+	"context"
 	"encoding/json"
 	"fmt"
 	"io"
+	"log/slog"
 	"os"
 	"os/exec"
 	"strings"
+	"sync"
 	"time"
+
+	"github.com/magisterquis/curlrevshell/internal/iobroker"
 
 	"github.com/magisterquis/curlrevshell/lib/opshell"
 	"github.com/magisterquis/curlrevshell/verifx/ev"
@@ -212,9 +217,72 @@ func init() {
 				break /* Enough to report. */
 			}
 		}
+		if 1 != len(args) {
+			qsBrokerShutdown(&rep)
+		}
 		json.NewEncoder(os.Stdout).Encode(rep)
 		return 0
 	}
+}
+
+// qsBrokerShutdown: C04's "at shutdown the broker finishes only after every
+// attached stream has ended", with time passing: a shell whose streams are
+// not ended by the shutdown itself (their contexts are their callers'), a
+// terminal that has stopped taking lines, Do's context cancelled, and then ten
+// minutes on the virtual clock.
+func qsBrokerShutdown(rep *qsReport) {
+	c := qsCase{Flavour: "vclock", Kind: "broker-shutdown", Spell: "10m0s"}
+	vtime.Reset(time.Now())
+	ich := make(chan string, 4)
+	och := make(chan opshell.CLine) /* Taken from only while the shell attaches. */
+	b, err := iobroker.New(ich, och)
+	if nil != err {
+		ev.Broken("%s", err)
+	}
+	ctx, cancel := context.WithCancel(context.Background())
+	doRet := make(chan error, 1)
+	go func() { doRet <- b.Do(ctx) }()
+	sl := slog.New(slog.NewTextHandler(io.Discard, nil))
+	sctx, scancel := context.WithCancel(context.Background())
+	pr, pw := io.Pipe()
+	var swg sync.WaitGroup
+	swg.Add(2)
+	go func() { defer swg.Done(); b.ConnectIn(sctx, sl, "quiet", io.Discard, "k") }()
+	go func() { defer swg.Done(); b.ConnectOut(sctx, sl, "quiet", pr, "k") }()
+	ready := false
+	for deadline := time.After(hworld.Watchdog); !ready; {
+		select {
+		case cl := <-och:
+			ready = strings.Contains(cl.Line, "Shell is ready")
+		case <-deadline:
+			ev.Broken("quiet-spell worker: the broker-level shell never became ready")
+		}
+	}
+	cancel() /* Shutdown; nobody takes the operator's lines any more. */
+	rep.Firings += vtime.AdvanceN(10*time.Minute, func() { time.Sleep(2 * time.Millisecond) }, qsMaxFirings)
+	time.Sleep(5 * time.Millisecond)
+	select {
+	case err := <-doRet:
+		rep.Viols = append(rep.Viols, qsViol{Prop: "C04", Sig: "quiet-spell/do-returned-early", Case: c,
+			What: fmt.Sprintf("a shell is attached (its streams' contexts are not the broker's), the broker is told to shut down, ten minutes pass: Broker.Do returned (%v) although both streams are still attached", err)})
+	default:
+	}
+	/* Let everything go. */
+	scancel()
+	pw.Close()
+	done := make(chan struct{})
+	go func() { swg.Wait(); close(done) }()
+	for deadline := time.After(hworld.Watchdog); ; {
+		select {
+		case <-och:
+			continue
+		case <-done:
+		case <-deadline:
+		}
+		break
+	}
+	rep.Scenarios++
+	rep.TimersArmed += vtime.Created()
 }
 
 // quietSpell runs the worker in the vclock build and takes over the
